@@ -122,6 +122,36 @@ func runBloomOps(flt *bloom.Filter, ops string) string {
 				flt.Add(unhex(p[1]))
 			case p[0] == "m" && len(p) == 2:
 				res.WriteString(bit(flt.Matches(unhex(p[1]))))
+			case p[0] == "ah" && len(p) == 2: // AddHash
+				h, ok := bloomHash32(p[1])
+				if !ok {
+					return "bad-op"
+				}
+				flt.AddHash(h)
+			case p[0] == "il" && len(p) == 1: // IsLoaded
+				res.WriteString(bit(flt.IsLoaded()))
+			case p[0] == "ul" && len(p) == 1: // Unload
+				flt.Unload()
+			case p[0] == "rn" && len(p) == 1: // Reload(nil)
+				flt.Reload(nil)
+			case p[0] == "rl" && len(p) == 5: // Reload(filter:hashFuncs:tweak:flags)
+				k, ok1 := u32tok(p[2])
+				t, ok2 := u32tok(p[3])
+				fl, err := strconv.ParseUint(p[4], 10, 8)
+				if !ok1 || !ok2 || err != nil || k > bloomMaxFuncs {
+					return "bad-op"
+				}
+				var bits []byte
+				if strings.HasPrefix(p[1], "z") {
+					n, err := strconv.Atoi(p[1][1:])
+					if err != nil || n < 0 || n > 1000000 {
+						return "bad-op"
+					}
+					bits = make([]byte, n)
+				} else {
+					bits = unhex(p[1])
+				}
+				flt.Reload(wire.NewMsgFilterLoad(bits, k, t, wire.BloomUpdateType(fl)))
 			case (p[0] == "ao" || p[0] == "mo") && len(p) == 3:
 				h, ok1 := bloomHash32(p[1])
 				idx, ok2 := u32tok(p[2])
@@ -553,6 +583,51 @@ func genBloom(g *core.Gen) {
 		ops, mem := bloomDataOps(r, r.Intn(14), 40)
 		g.Case("bloom-ops", sz > 0 && mem > 0, fmt.Sprintf("C20 bloom %s %d %d %d %s", bloomRandField(r, sz), bloomRandFuncs(r),
 			bloomRandTweak(r), bloomRandFlags(r), opsTok(ops)))
+	}
+	// filter life cycle: AddHash / IsLoaded / Unload / Reload(nil) / Reload(new message) between data ops
+	for i := 0; i < g.N(250, 8000); i++ {
+		sz := bloomRandSize(r)
+		if r.Chance(1, 10) {
+			sz = 0
+		}
+		var ops []string
+		var hashes []string
+		for j := 0; j < 3+r.Intn(12); j++ {
+			switch r.Intn(9) {
+			case 0:
+				h := hex.EncodeToString(r.Bytes(32))
+				hashes = append(hashes, h)
+				ops = append(ops, "ah:"+h)
+			case 1:
+				if len(hashes) > 0 {
+					ops = append(ops, "m:"+hashes[r.Intn(len(hashes))])
+				} else {
+					ops = append(ops, "m:"+hexTok(r.Bytes(r.Intn(9))))
+				}
+			case 2:
+				ops = append(ops, "il")
+			case 3:
+				if r.Chance(1, 2) {
+					ops = append(ops, "ul")
+				} else {
+					ops = append(ops, "rn")
+				}
+			case 4:
+				nsz := bloomRandSize(r)
+				if r.Chance(1, 6) {
+					nsz = 0
+				}
+				ops = append(ops, fmt.Sprintf("rl:%s:%d:%d:%d", bloomRandField(r, nsz), bloomRandFuncs(r), bloomRandTweak(r), bloomRandFlags(r)))
+			default:
+				o, _ := bloomDataOps(r, 1+r.Intn(2), 12)
+				ops = append(ops, o...)
+			}
+		}
+		first := fmt.Sprintf("%s %d %d %d", bloomRandField(r, sz), bloomRandFuncs(r), bloomRandTweak(r), bloomRandFlags(r))
+		if r.Chance(1, 8) {
+			first = fmt.Sprintf("nil %d %d %d", bloomRandFuncs(r), bloomRandTweak(r), bloomRandFlags(r))
+		}
+		g.Case("bloom-life", true, fmt.Sprintf("C20 bloom %s %s", first, opsTok(ops)))
 	}
 	// transactions against the three update modes (+ invalid flag values)
 	for i := 0; i < g.N(700, 20000); i++ {
